@@ -56,7 +56,7 @@ Source(cols, data, name, rootId) ==
       part |-> <<>>,
       pcls |-> Iota(Len(data)), scls |-> AllOnes(Len(data)),
       pdef |-> TRUE, sdef |-> TRUE,
-      name |-> name, root |-> {rootId} ]
+      name |-> name, root |-> {rootId}, loose |-> FALSE ]
 
 HasUndef(t) == \E r \in DOMAIN t.rows : \E c \in Scope(t) : IsU(t.rows[r][c])
 
@@ -281,6 +281,178 @@ Summarize(t, kvs, nid) ==
             !.pcls = AllOnes(Len(reps)), !.scls = AllOnes(Len(reps)) ])
 
 ---------------------------------------------------------------------------
+(* alias / collect: re-root a table without changing visible data          *)
+
+(* plain alias(): every in-scope column gets a fresh identity (ids nid ..), *)
+(* the result is an independent table (its own root); alias(keep_col_refs= *)
+(* TRUE) only changes the table name.                                      *)
+Alias(t, name, keep, nid) ==
+    IF keep THEN Ok([t EXCEPT !.name = name])
+    ELSE
+    LET old  == SetToSortSeq(Scope(t), <)
+        pos(c) == CHOOSE i \in DOMAIN old : old[i] = c
+        new(c) == nid + pos(c) - 1
+        newset == {new(c) : c \in Scope(t)}
+        inv(d) == old[d - nid + 1]
+    IN Ok([t EXCEPT
+            !.vis  = [i \in DOMAIN t.vis |-> new(t.vis[i])],
+            !.nm   = [d \in newset |-> t.nm[inv(d)]],
+            !.ty   = [d \in newset |-> t.ty[inv(d)]],
+            !.fk   = [d \in newset |-> t.fk[inv(d)]],
+            !.rows = [r \in DOMAIN t.rows |-> [d \in newset |-> t.rows[r][inv(d)]]],
+            !.part = [i \in DOMAIN t.part |-> new(t.part[i])],
+            !.name = name,
+            !.root = {1000 + nid} ])
+AliasNew(t, keep) == IF keep THEN 0 ELSE Cardinality(Scope(t))
+
+(* collect(): materialise; only the visible columns survive.  keep_col_refs=TRUE keeps the *)
+(* identities of the visible columns and the grouping; FALSE gives a brand-new table.      *)
+Collect(t, keep, nid) ==
+    LET V == VisSet(t) IN
+    IF keep
+    THEN Ok([t EXCEPT !.nm = [c \in V |-> t.nm[c]], !.ty = [c \in V |-> t.ty[c]], !.fk = [c \in V |-> "e"],
+                      !.rows = [r \in DOMAIN t.rows |-> [c \in V |-> t.rows[r][c]]],
+                      !.root = t.root \cup {1000 + nid}])
+    ELSE
+    LET new(i) == nid + i - 1
+        newset == {new(i) : i \in DOMAIN t.vis}
+    IN Ok([t EXCEPT
+            !.vis  = [i \in DOMAIN t.vis |-> new(i)],
+            !.nm   = [d \in newset |-> t.nm[t.vis[d - nid + 1]]],
+            !.ty   = [d \in newset |-> t.ty[t.vis[d - nid + 1]]],
+            !.fk   = [d \in newset |-> "e"],
+            !.rows = [r \in DOMAIN t.rows |-> [d \in newset |-> t.rows[r][t.vis[d - nid + 1]]]],
+            !.part = <<>>,
+            !.root = {1000 + nid} ])
+CollectNew(t, keep) == IF keep THEN 0 ELSE Len(t.vis)
+
+
+---------------------------------------------------------------------------
+(* join: exactly the pairs of rows satisfying `on` (null never equals      *)
+(* anything), plus null-padded unmatched rows for left / full.             *)
+
+(* strings as sequences are not available here: suffixing is name ++ suffix on TLC strings *)
+Concat(a, b) == a \o b
+
+RECURSIVE OnRefs(_)
+OnRefs(e) ==      \* column ids referenced by an elaborated expression
+    CASE e.k = "col" -> {e.id}
+      [] e.k = "fn" -> UNION {OnRefs(e.a[i]) : i \in DOMAIN e.a}
+      [] e.k = "case" -> UNION ({OnRefs(e.cs[i].c) \cup OnRefs(e.cs[i].v) : i \in DOMAIN e.cs} \cup {OnRefs(e.d[i]) : i \in DOMAIN e.d})
+      [] e.k = "cast" -> OnRefs(e.e)
+      [] OTHER -> {}
+
+RECURSIVE Conjuncts(_)
+Conjuncts(e) == IF e.k = "fn" /\ e.op = "and" THEN Conjuncts(e.a[1]) \o Conjuncts(e.a[2]) ELSE <<e>>
+
+(* on : Seq(expr | [k |-> "str", n |-> name]);  usfx: "" or the user-given suffix *)
+Join(l, r, on, how, usfx) ==
+    IF l.part # <<>> \/ r.part # <<>> THEN Fail("ValueError")
+    ELSE IF l.root \cap r.root # {} THEN Fail("ValueError")
+    ELSE
+    LET ln == VisNames(l)
+        rn == VisNames(r)
+        \* bare strings: left[n] == right[n]; C.n resolves to the unique side that has it
+        strBad == \E i \in DOMAIN on : on[i].k = "str" /\ (on[i].n \notin ln \/ on[i].n \notin rn)
+        on1 == [i \in DOMAIN on |-> IF on[i].k = "str" /\ ~strBad
+                                    THEN [k |-> "fn", op |-> "eq", a |-> <<[k |-> "col", id |-> ByName(l)[on[i].n]],
+                                                                           [k |-> "col", id |-> ByName(r)[on[i].n]]>>]
+                                    ELSE on[i]]
+        both == ln \cap rn
+        byn  == [n \in (ln \cup rn) \ both |-> IF n \in ln THEN ByName(l)[n] ELSE ByName(r)[n]]
+        cx   == [ty |-> l.ty @@ r.ty, fk |-> l.fk @@ r.fk, scope |-> Scope(l) \cup Scope(r), byname |-> byn,
+                 part |-> <<>>, aggwin |-> FALSE]
+    IN
+    IF strBad THEN Fail("ColumnNotFoundError")
+    ELSE
+    LET es == [i \in DOMAIN on1 |-> El(on1[i], cx)]
+        fe == FirstErr(es)
+    IN
+    IF fe # <<>> THEN Fail(IF fe[1].cls = "ColumnNotFoundError" THEN "ValueError" ELSE fe[1].cls)
+    ELSE IF \E i \in DOMAIN es : es[i].ty # "bool" THEN Fail("DataTypeError")
+    ELSE
+    LET sfxAuto == Concat("_", r.name)
+        \* names of the right columns after the documented suffix rule
+        userClash == usfx # "" /\ \E n \in rn : Concat(n, usfx) \in ln
+        onIds == UNION {OnRefs(es[i]) : i \in DOMAIN es}
+        rOnNames == {r.nm[c] : c \in VisSet(r) \cap onIds}
+        onlyJoinClash == ((rn \ rOnNames) \cap ln) = {}
+        needInt == usfx = "" /\ both # {} /\ \E n \in rn : Concat(n, sfxAuto) \in ln
+        newName(c) ==
+            IF c \notin VisSet(r) THEN r.nm[c]
+            ELSE IF usfx # "" THEN Concat(r.nm[c], usfx)
+            ELSE IF both = {} THEN r.nm[c]
+            ELSE IF onlyJoinClash THEN (IF r.nm[c] \in ln THEN Concat(r.nm[c], sfxAuto) ELSE r.nm[c])
+            ELSE Concat(r.nm[c], sfxAuto)
+        conj == Flat([i \in DOMAIN es |-> Conjuncts(es[i])])
+        allEq == \A i \in DOMAIN conj : conj[i].k = "fn" /\ conj[i].op = "eq"
+    IN
+    IF userClash THEN Fail("ValueError")
+    ELSE IF how = "full" /\ ~allEq THEN Fail("ValueError")
+    ELSE IF \E i \in DOMAIN es : HasAggWinOp(es[i]) \/ es[i].fk # "e" THEN Fail("FunctionTypeError")
+    ELSE
+    LET sc   == Scope(l) \cup Scope(r)
+        nl_  == Len(l.rows)
+        nr_  == Len(r.rows)
+        pair(a, b) == [c \in sc |-> IF c \in Scope(l) THEN l.rows[a][c] ELSE r.rows[b][c]]
+        padL(b) == [c \in sc |-> IF c \in Scope(r) THEN r.rows[b][c] ELSE NULL]
+        padR(a) == [c \in sc |-> IF c \in Scope(l) THEN l.rows[a][c] ELSE NULL]
+        okv(a, b) == [i \in DOMAIN es |-> Ev(es[i], <<pair(a, b)>>, 1)]
+        match(a, b) == \A i \in DOMAIN es : okv(a, b)[i] = TRUE
+        undef == \E a \in 1..nl_ : \E b \in 1..nr_ : SeqAnyU(okv(a, b))
+        matched == Flat([a \in 1..nl_ |-> SelectSeq([b \in 1..nr_ |-> <<a, b>>], LAMBDA p : match(p[1], p[2]))])
+        lun == SelectSeq(Iota(nl_), LAMBDA a : \A b \in 1..nr_ : ~match(a, b))
+        run == SelectSeq(Iota(nr_), LAMBDA b : \A a \in 1..nl_ : ~match(a, b))
+        rows == [p \in DOMAIN matched |-> pair(matched[p][1], matched[p][2])]
+                \o (IF how \in {"left", "full"} THEN [p \in DOMAIN lun |-> padR(lun[p])] ELSE <<>>)
+                \o (IF how = "full" THEN [p \in DOMAIN run |-> padL(run[p])] ELSE <<>>)
+    IN
+    IF undef THEN Fail("UNDEF")
+    ELSE Ok([ vis  |-> l.vis \o r.vis,
+              nm   |-> [c \in sc |-> IF c \in Scope(l) THEN l.nm[c] ELSE newName(c)],
+              ty   |-> l.ty @@ r.ty,
+              fk   |-> l.fk @@ r.fk,
+              rows |-> rows,
+              part |-> <<>>,
+              pcls |-> AllOnes(Len(rows)), scls |-> AllOnes(Len(rows)),
+              pdef |-> l.pdef /\ r.pdef, sdef |-> l.sdef /\ r.sdef,
+              name |-> l.name, root |-> l.root \cup r.root,
+              loose |-> needInt ])
+
+---------------------------------------------------------------------------
+(* union: rows of both tables matched by column NAME under the left        *)
+(* table's names and order; distinct removes duplicates (nulls equal);     *)
+(* hidden columns of either side do not survive.                           *)
+TyCompat(a, b) == JoinTy(a, b) # "ERR"
+
+RowEqOn(cs, tys, x, y) == \A i \in DOMAIN cs : SameKey(tys[i], x[cs[i]], y[cs[i]])
+
+Union(l, r, distinct) ==
+    IF l.part # <<>> \/ r.part # <<>> THEN Fail("ValueError")
+    ELSE IF VisNames(l) # VisNames(r) THEN Fail("ValueError")
+    ELSE IF \E n \in VisNames(l) : ~TyCompat(l.ty[ByName(l)[n]], r.ty[ByName(r)[n]]) THEN Fail("TypeError")
+    ELSE
+    LET V   == VisSet(l)
+        rOf(c) == ByName(r)[l.nm[c]]
+        tys == [i \in DOMAIN l.vis |-> JoinTy(l.ty[l.vis[i]], r.ty[rOf(l.vis[i])])]
+        jt(c) == JoinTy(l.ty[c], r.ty[rOf(c)])
+        up(ty, to, v) == IF to = "float" THEN ToRat(ty, v) ELSE v      \* implicit conversion to the common type
+        lr  == [p \in DOMAIN l.rows |-> [c \in V |-> up(l.ty[c], jt(c), l.rows[p][c])]]
+        rr  == [p \in DOMAIN r.rows |-> [c \in V |-> up(r.ty[rOf(c)], jt(c), r.rows[p][rOf(c)])]]
+        all == lr \o rr
+        ded == SelectSeq(Iota(Len(all)), LAMBDA p : \A q \in 1..(p - 1) : ~RowEqOn(l.vis, tys, all[q], all[p]))
+        rows == IF distinct THEN [p \in DOMAIN ded |-> all[ded[p]]] ELSE all
+    IN Ok([ vis  |-> l.vis,
+            nm   |-> [c \in V |-> l.nm[c]],
+            ty   |-> [c \in V |-> JoinTy(l.ty[c], r.ty[rOf(c)])],
+            fk   |-> [c \in V |-> "e"],
+            rows |-> rows,
+            part |-> <<>>,
+            pcls |-> AllOnes(Len(rows)), scls |-> AllOnes(Len(rows)),
+            pdef |-> l.pdef /\ r.pdef, sdef |-> l.sdef /\ r.sdef,
+            name |-> l.name, root |-> l.root \cup r.root, loose |-> FALSE ])
+
+---------------------------------------------------------------------------
 (* observation of a table: what export / columns() / grouping show *)
 Obs(t) ==
     [ names |-> NamesOf(t),
@@ -288,6 +460,7 @@ Obs(t) ==
       tys   |-> [i \in DOMAIN t.vis |-> t.ty[t.vis[i]]],
       rows  |-> [r \in DOMAIN t.rows |-> [i \in DOMAIN t.vis |-> t.rows[r][t.vis[i]]]],
       pcls  |-> t.pcls, scls |-> t.scls, pdef |-> t.pdef, sdef |-> t.sdef,
-      part  |-> [i \in DOMAIN t.part |-> t.nm[t.part[i]]] ]
+      part  |-> [i \in DOMAIN t.part |-> t.nm[t.part[i]]],
+      loose |-> t.loose ]
 
 =============================================================================
